@@ -519,3 +519,199 @@ pub fn emit_c20_source(specs: &[Spec], extras: &[(usize, String)]) -> (String, V
     s.push_str("fn main() {}\n");
     (s, ranges)
 }
+
+/// C20: randomly composed *generic* receivers. Every type parameter is used by at least one field in a
+/// randomly chosen role (ordinary, Option, multiple, flatten, boxed, map value, wrapper types, a generic
+/// receiver of its own, skipped); parameter names include names of prelude types and of the traits the
+/// generated code mentions. The struct declares only the bounds the documentation asks the *user* for
+/// (`Default` for a parameter a skipped field needs a value of); `FromMeta` bounds on parsed parameters
+/// are the derive's job.
+pub fn c20_generics(d: &mut crate::dec::D, first_id: usize, count: usize) -> Vec<(usize, String)> {
+    const PNAMES: &[&str] = &["T", "U", "V", "F", "E", "Item", "Meta", "Error", "Result", "Option", "Vec", "String", "FromMeta", "Box", "Default", "Ok", "Self_", "D", "__T"];
+    let traits = ["FromMeta", "FromMeta", "FromDeriveInput", "FromField", "FromVariant", "FromTypeParam", "FromAttributes"];
+    let mut out = vec![];
+    for k in 0..count {
+        let id = first_id + k;
+        let np = d.range(1, 3);
+        let mut params: Vec<&str> = vec![];
+        while params.len() < np {
+            let p = *d.pick(PNAMES);
+            if !params.contains(&p) {
+                params.push(p);
+            } else {
+                params.push(["P0", "P1", "P2"][params.len()]);
+            }
+        }
+        let lifetime = d.ratio(1, 4);
+        let konst = d.ratio(1, 4);
+        let is_enum = d.ratio(1, 4);
+        let mut need_default: Vec<&str> = vec![];
+        let mut wrappers = String::new();
+        let mut fno = 0usize;
+        let mut flat_used = false;
+        // one field declaration using parameter `p`
+        let mut field = |d: &mut crate::dec::D, p: &str, in_variant: bool, need_default: &mut Vec<&'static str>, pstatic: &'static str| -> String {
+            fno += 1;
+            let name = format!("g{}_{}", id, fno);
+            let vis = if in_variant { "" } else { "pub " };
+            let role = d.below(14);
+            match role {
+                0 | 1 => format!("{}{}: {}", vis, name, p),
+                2 => format!("{}{}: ::core::option::Option<{}>", vis, name, p),
+                3 => format!("#[darling(multiple)] {}{}: ::std::vec::Vec<{}>", vis, name, p),
+                4 if !flat_used => {
+                    flat_used = true;
+                    format!("#[darling(flatten)] {}{}: {}", vis, name, p)
+                }
+                5 => format!("#[darling(skip)] {}{}: ::core::option::Option<{}>", vis, name, p),
+                6 => {
+                    if !need_default.contains(&pstatic) {
+                        need_default.push(pstatic);
+                    }
+                    format!("#[darling(skip)] {}{}: {}", vis, name, p)
+                }
+                7 => format!("{}{}: ::std::boxed::Box<{}>", vis, name, p),
+                8 => format!("{}{}: ::std::collections::HashMap<::std::string::String, {}>", vis, name, p),
+                9 => format!("#[darling(default)] {}{}: ::core::option::Option<{}>", vis, name, p),
+                10 => {
+                    wrappers.push_str(&format!("#[derive(::darling::FromMeta)]\npub struct Wrap{}_{}<X> {{ pub w: X }}\n", id, fno));
+                    format!("{}{}: Wrap{}_{}<{}>", vis, name, id, fno, p)
+                }
+                11 => format!("{}{}: ::darling::util::SpannedValue<{}>", vis, name, p),
+                12 => format!("{}{}: ::darling::util::Override<{}>", vis, name, p),
+                _ => format!("#[darling(rename = \"rn{}\")] {}{}: ::std::rc::Rc<::core::option::Option<{}>>", fno, vis, name, p),
+            }
+        };
+        let mut decl = String::new();
+        let mut fwd = false;
+        let tr = if is_enum { "FromMeta" } else { *d.pick(&traits) };
+        let mut body = String::new();
+        if is_enum {
+            body.push_str("    Unit,\n");
+            for (i, p) in params.clone().iter().enumerate() {
+                match d.below(3) {
+                    0 => body.push_str(&format!("    New{}({}),\n", i, p)),
+                    1 => {
+                        let f1 = field(d, p, true, &mut need_default, p);
+                        let q = *d.pick(&params);
+                        let f2 = field(d, q, true, &mut need_default, q);
+                        body.push_str(&format!("    St{} {{ {}, {} }},\n", i, f1, f2));
+                    }
+                    _ => {
+                        let f1 = field(d, p, true, &mut need_default, p);
+                        body.push_str(&format!("    #[darling(rename = \"s{}\")] St{} {{ {} }},\n", i, i, f1));
+                    }
+                }
+            }
+        } else {
+            for p in params.clone().iter() {
+                let f = field(d, p, false, &mut need_default, p);
+                body.push_str(&format!("    {},\n", f));
+                if d.ratio(1, 3) {
+                    let f = field(d, p, false, &mut need_default, p);
+                    body.push_str(&format!("    {},\n", f));
+                }
+            }
+            if d.ratio(1, 3) {
+                body.push_str(&format!("    #[darling(default)] pub plain{}: u8,\n", id));
+            }
+            // magic fields of the trait, each with its documented type spelled through absolute paths
+            let magic: &[(&str, &str)] = match tr {
+                "FromDeriveInput" => &[
+                    ("ident", "::darling::export::syn::Ident"),
+                    ("vis", "::darling::export::syn::Visibility"),
+                    ("generics", "::darling::export::syn::Generics"),
+                    ("data", "::darling::ast::Data<::darling::util::Ignored, ::darling::util::Ignored>"),
+                    ("attrs", "::std::vec::Vec<::darling::export::syn::Attribute>"),
+                ],
+                "FromField" => &[
+                    ("ident", "::core::option::Option<::darling::export::syn::Ident>"),
+                    ("vis", "::darling::export::syn::Visibility"),
+                    ("ty", "::darling::export::syn::Type"),
+                    ("attrs", "::std::vec::Vec<::darling::export::syn::Attribute>"),
+                ],
+                "FromVariant" => &[
+                    ("ident", "::darling::export::syn::Ident"),
+                    ("discriminant", "::core::option::Option<::darling::export::syn::Expr>"),
+                    ("fields", "::darling::ast::Fields<::darling::util::Ignored>"),
+                    ("attrs", "::std::vec::Vec<::darling::export::syn::Attribute>"),
+                ],
+                "FromTypeParam" => &[
+                    ("ident", "::darling::export::syn::Ident"),
+                    ("bounds", "::std::vec::Vec<::darling::export::syn::TypeParamBound>"),
+                    ("default", "::core::option::Option<::darling::export::syn::Type>"),
+                    ("attrs", "::std::vec::Vec<::darling::export::syn::Attribute>"),
+                ],
+                _ => &[],
+            };
+            for (mn, mt) in magic {
+                if d.ratio(1, 3) {
+                    if *mn == "attrs" {
+                        fwd = true;
+                    }
+                    body.push_str(&format!("    pub {}: {},\n", mn, mt));
+                }
+            }
+        }
+        // phantom use of lifetime / const parameters
+        let mut gl: Vec<String> = vec![];
+        if lifetime {
+            gl.push("'a".into());
+        }
+        // bounds: inline or in a where-clause
+        let in_where = d.bool();
+        for p in &params {
+            if need_default.contains(p) && !in_where {
+                gl.push(format!("{}: ::core::default::Default", p));
+            } else {
+                gl.push(p.to_string());
+            }
+        }
+        if konst {
+            gl.push("const N: usize".into());
+        }
+        let wc: Vec<String> = if in_where { need_default.iter().map(|p| format!("{}: ::core::default::Default", p)).collect() } else { vec![] };
+        let wc = if wc.is_empty() { String::new() } else { format!(" where {}", wc.join(", ")) };
+        if !is_enum && (lifetime || konst) {
+            body.push_str(&format!(
+                "    #[darling(skip)] pub ph{}: ::core::marker::PhantomData<{}>,\n",
+                id,
+                match (lifetime, konst) {
+                    (true, true) => "&'a [u8; N]",
+                    (true, false) => "&'a u8",
+                    _ => "[u8; N]",
+                }
+            ));
+        }
+        if is_enum && (lifetime || konst) {
+            body.push_str(&format!(
+                "    #[darling(skip)] Ph(::core::marker::PhantomData<{}>),\n",
+                match (lifetime, konst) {
+                    (true, true) => "&'a [u8; N]",
+                    (true, false) => "&'a u8",
+                    _ => "[u8; N]",
+                }
+            ));
+        }
+        let attrs = if tr == "FromMeta" {
+            ""
+        } else if fwd {
+            "#[darling(attributes(ata), forward_attrs(doc, allow))]\n"
+        } else {
+            "#[darling(attributes(ata))]\n"
+        };
+        decl.push_str(&wrappers);
+        decl.push_str(&format!(
+            "#[derive(::darling::{tr})]\n{attrs}pub {kw} GG{id}<{gl}>{wc} {{\n{body}}}\n",
+            tr = tr,
+            attrs = attrs,
+            kw = if is_enum { "enum" } else { "struct" },
+            id = id,
+            gl = gl.join(", "),
+            wc = wc,
+            body = body
+        ));
+        out.push((id, decl));
+    }
+    out
+}
